@@ -240,7 +240,7 @@ func VerifC11Bound() {
 	t0 := uint64(2000000000000)
 	rt.SetClockMs(t0)
 	beh := []ControlBehavior{Reject, Throttling}[rt.Param("BEH")]
-	r := &Rule{Resource: "W", TokenCalculateStrategy: WarmUp, ControlBehavior: beh, Threshold: 10, WarmUpPeriodSec: 10, WarmUpColdFactor: 3, MaxQueueingTimeMs: 50}
+	r := &Rule{Resource: "W", TokenCalculateStrategy: WarmUp, ControlBehavior: beh, Threshold: 10, WarmUpPeriodSec: 10, WarmUpColdFactor: 3, MaxQueueingTimeMs: 1000}
 	if rt.Bool("perResource") {
 		LoadRulesOfResource("W", []*Rule{r})
 	} else {
@@ -257,7 +257,8 @@ func VerifC11Bound() {
 		return
 	}
 	node := stat.GetOrCreateResourceNode("W", base.ResTypeCommon)
-	n := int64(rt.U32n("admittedLastSecond", 4)) // 0..15 requests admitted in the second before the check
+	// 0..15 requests admitted in the second before the check (a table look-up splits the cases: the FP chain then folds)
+	n := []int64{0, 1, 2, 3, 4, 5, 6, 7, 8, 9, 10, 11, 12, 13, 14, 15}[rt.Choice(16)]
 	rt.SetClockMs(t0 + 500 + rt.U64n("ms0", 8)) // inside the bucket [t0+500, t0+1000)
 	node.AddCount(base.MetricEventPass, n)
 	rt.SetClockMs(t0 + 1000 + rt.U64n("ms", 9)) // up to 511 ms into the next second: the window one bucket back still holds that bucket
@@ -265,4 +266,14 @@ func VerifC11Bound() {
 	rt.Reach("c11.bound")
 	rt.Assert(c.storedTokens == int64(c.maxToken)-n, "the warm-up bucket (full after idling) is drained by what its resource admitted in the previous second")
 	rt.Assert(allowed <= 10 && allowed > 0, "the effective threshold lies in (0, threshold]")
+	if beh == Throttling {
+		// pacing follows the effective (warming) threshold, not the configured one: with the bucket still at least 35
+		// tokens above the warning line the rate is at most 1/(35*slope+1/10) < 5 per second
+		r1 := tcs[0].PerformChecking(node, 1, 0)
+		r2 := tcs[0].PerformChecking(node, 1, 0)
+		rt.Reach("c11.bound-paced")
+		rt.Assert(r1 == nil || !r1.IsBlocked(), "the first request after idling passes")
+		rt.Assert(r2 != nil && r2.Status() == base.ResultStatusShouldWait && r2.NanosToWait() >= 200*1000*1000,
+			"a cold warm-up rule with throttling spaces requests by the warming rate (at least 200 ms here), not by the configured threshold")
+	}
 }
